@@ -333,7 +333,7 @@ type Replay struct {
 func WriteReplay(r *Replay) string {
 	dir := filepath.Join(VerifDir(), "replays")
 	os.MkdirAll(dir, 0777)
-	name := fmt.Sprintf("%s-s%d-c%d-%s.json", r.Property, r.Seed, r.Index, sanitize(r.Verdict.Clause))
+	name := fmt.Sprintf("%s-s%d-c%d-%s.json", r.Property, r.Seed, r.Index, sanitize(r.Verdict.Clause+"_"+r.Verdict.Disc))
 	p := filepath.Join(dir, name)
 	data, _ := json.MarshalIndent(r, "", " ")
 	if err := os.WriteFile(p, append(data, '\n'), 0666); err != nil {
